@@ -7,11 +7,14 @@
    number).  (3) BOUNDED WORK: over the string input, for every input, no loop of the scanner exhausts the fuel
    F = 2 * |input| + 10 it is given, the scanner delivers at most 4F + 20 tokens and the parser ends within
    4 * (4F + 20) + 40 steps - the pipeline run_str never ends in OutOfFuel; every fetch_next_token step is the
-   stream-start step, or consumes at least one character, or is the final fetch_stream_end.  Not theorems: the
-   byte-level StrInput overrides (tied by the back-end comparison C10) and fuel on the buffered side. *)
+   stream-start step, or consumes at least one character, or is the final fetch_stream_end.  (4) BOUNDED WORK OVER THE
+   BUFFERED INPUT of any capacity >= 8 (BufferedInput, capacity 16, is the back-end behind Parser::new_from_iter and
+   Yaml::load_from_str): with the SAME fuel formulas run_buf never ends in OutOfFuel either, and always ends properly
+   (fuel transfer from the string instance through a strengthened relational calculus: Proofs/ScanFuelBuf*.v).
+   Not theorems: the byte-level StrInput overrides (tied by the back-end comparison C10). *)
 From Coq Require Import List NArith Bool.
 Import ListNotations.
-Require Import Parser SBase SFetch Pipe SBuf Grammar C02base C02tail C02run ScanWP ScanSafeTop ScanFuel ScanFuelFetch ScanFuelTop ScanFuelAll ScanSafeStrTop.
+Require Import Parser SBase SFetch Pipe SBuf Grammar C02base C02tail C02run ScanWP ScanSafeTop ScanFuel ScanFuelFetch ScanFuelTop ScanFuelAll ScanSafeStrTop ScanFuelBufAll.
 
 (* The pull parser never panics (pop_state on an empty stack, fetch_token without peek, unreachable! arms,
    State::End in the state machine), whatever the token stream and however the scanner ended: a panic verdict
@@ -89,3 +92,22 @@ Print Assumptions C01_pipeline_never_panics_str.
 Theorem C01_pipeline_ends_properly : forall orig : list N, proper_pend (snd (run_str orig)).
 Proof. exact pipeline_ends_properly. Qed.
 Print Assumptions C01_pipeline_ends_properly.
+
+(* ---- bounded work over the BUFFERED input (any capacity >= 8) ---- *)
+(* The buffered scanner, given the fuels run_buf gives it (linear in the input length), never ends in SFuel. *)
+Theorem C01_scanner_terminates_linear_buffered : forall cap (orig : list chr), (8 <= cap)%nat ->
+  let F := (2 * length orig + 10)%nat in
+  snd (scan_all (buf_ops cap) F (4 * F + 20) (init_sc {| b_buf := []; b_rest := orig |}) []) <> SFuel.
+Proof. exact scanner_never_out_of_fuel_buffered. Qed.
+Print Assumptions C01_scanner_terminates_linear_buffered.
+
+(* The whole pipeline over the buffered input never runs out of its linear fuel. *)
+Theorem C01_pipeline_terminates_linear_buffered : forall cap (x : list N), (8 <= cap)%nat -> snd (run_buf cap x) <> PFuel.
+Proof. exact pipeline_terminates_linear_buffered. Qed.
+Print Assumptions C01_pipeline_terminates_linear_buffered.
+
+(* TOTAL CORRECTNESS of the model pipeline over the buffered input of any capacity >= 8: for EVERY input the run ends in
+   a complete event stream (PDone) or in a first scan / parse error - never in a panic, never by exhausting its fuel. *)
+Theorem C01_pipeline_ends_properly_buffered : forall cap (x : list N), (8 <= cap)%nat -> proper_pend (snd (run_buf cap x)).
+Proof. exact pipeline_ends_properly_buffered. Qed.
+Print Assumptions C01_pipeline_ends_properly_buffered.
